@@ -47,7 +47,27 @@ func init() { register(raceSlice{}) }
 
 func (raceSlice) Name() string { return "race" }
 
-func (raceSlice) Corpus() [][]string { return nil }
+// Corpus: one deterministic scenario that always runs first (shard 0): a VP9 stream whose key frames
+// change the frame size every third frame — the writer stores codec.Width / codec.Height in writeVP9
+// outside the muxer mutex while the readers request index.m3u8 (finding F14a; with fix-F14a: clean).
+func (raceSlice) Corpus() [][]string {
+	ops := []string{
+		"start v=fmp4 segcount=3 segmin=100000000 partmin=100000000 maxsize=52428800 dir=0",
+		"track codec=vp9 rate=90000 sr=0",
+		"begin",
+	}
+	pts := int64(900000)
+	for i := 0; i < 400; i++ {
+		par := 1 + (i/3)%2
+		size := mxOtherSize("vp9", true, par, i+1, 0)
+		ops = append(ops, fmt.Sprintf("w t=0 pts=%d dts=%d ntp=%d ra=1 pic=1 par=%d pays=%d sizes=%d fill=0", pts, pts, 1600000000000+int64(i)*100, par, i+1, size))
+		pts += 9000
+		if i%50 == 49 {
+			ops = append(ops, "snap")
+		}
+	}
+	return [][]string{ops}
+}
 
 func (raceSlice) Gen(r *rand.Rand, i int, tier string) ([]string, []string) {
 	var ops, tags []string
